@@ -55,6 +55,11 @@ CHECKS['C18'] = dict(cat='model_checking', ref='5/C18',
     note='The fake clientset stands in for the API server; a neighbouring StatefulSet claim with a similar name is planted to detect over-deletion.',
     tech='TLA+ operators; TLC exhaustive case enumeration; replay on real manager with fake clientset; TLC evaluation of formulas on observations')
 
+CHECKS['C17'] = dict(cat='model_checking', ref='5/C17',
+    text='spec/Discovery.tla gives translation of SD updates, explorer consumption and reloads as operators; TLC checks the C17 invariants (sets follow the latest update of every configured job, reload keeps remaining jobs and removes deleted ones, explorer table = last consumed update) exhaustively on MCDiscovery (2 jobs, every update shape incl. partial rounds, dropped targets, failing groups, duplicates); TLC-simulated behaviours over 3 jobs are replayed through TargetsDiscovery.Run input channel, ApplyConfig via the real ConfigManager callbacks, Explore.UpdateTargets/ApplyConfig; TLC (DiscoveryEval) validates the state after every step, snapshot immutability, and - with reader goroutines running - that every concurrent read equals the specification value in a state of its window (linearisability).',
+    note='Concurrent part samples schedules (thousands of reads per run), it does not enumerate them.',
+    tech='TLA+ functional spec; TLC exhaustive check; TLC-generated behaviours replayed; TLC trace validation incl. linearisability windows')
+
 ALL = ['C%02d' % i for i in range(1, 21)]
 
 
